@@ -35,6 +35,9 @@ func vfC09(c *hx.Ctx) {
 	for i, g := range sel {
 		cf := g.cfg
 		cf.K, cf.Wire, cf.Owners = K, true, []string{"C09:"}
+		if i%3 == 0 {
+			cf.GapAfter, cf.GapMs = 1, 650 // an idle gap longer than the FEC continuity limit after the first write
+		}
 		if i%4 == 1 {
 			cf.Mtu = 600
 			for j := range cf.Writes {
@@ -232,7 +235,11 @@ func vfC10(c *hx.Ctx) {
 		alpha = append(alpha, 24+overhead, 25+overhead, 26+overhead, 100+overhead, 1000)
 		body := func(p *vfPair) {
 			v := alpha[vrt.Choose(len(alpha), "mtu value")]
-			pos := vrt.Choose(4, "position")
+			pos := vrt.Choose(5, "position")
+			nsmall := 0
+			if pos == 4 {
+				nsmall = vrt.Choose(3, "small writes before the idle gap")
+			}
 			cur := IKCP_MTU_DEF
 			setMtu := func() {
 				p.client.mu.Lock()
@@ -257,6 +264,9 @@ func vfC10(c *hx.Ctx) {
 					if nv < cur && queued > 0 {
 						p.shrunk = true
 					}
+					if nv < cur {
+						p.noteShrink()
+					}
 					cur = nv
 					p.mtuNow = nv
 				}
@@ -275,6 +285,32 @@ func vfC10(c *hx.Ctx) {
 			wg.Add(2)
 			vrt.Go("app-client-writer", func() {
 				defer wg.Done()
+				if pos == 4 {
+					// a history with an idle gap (> the FEC continuity limit), everything acknowledged, then the MTU change,
+					// then a burst of small writes
+					sizes := []int{1300}
+					for i := 0; i < nsmall; i++ {
+						sizes = append(sizes, 20)
+					}
+					p.writer(p.client, 0, sizes, &cw)
+					vrt.Sleep(700 * time.Millisecond)
+					sizes = append(sizes, 21)
+					p.writer2(p.client, 0, sizes, len(sizes)-1, &cw)
+					vrt.Sleep(150 * time.Millisecond)
+					setMtu()
+					n0 := len(sizes)
+					for i := 0; i < 6; i++ {
+						sizes = append(sizes, 30+i)
+					}
+					for i := n0; i < len(sizes); i++ {
+						p.writer2(p.client, 0, sizes[:i+1], i, &cw)
+						vrt.Sleep(time.Millisecond)
+					}
+					p.mu.Lock()
+					p.altSizes = sizes
+					p.mu.Unlock()
+					return
+				}
 				if pos == 0 {
 					setMtu()
 				}
@@ -305,6 +341,27 @@ func vfC10(c *hx.Ctx) {
 				p.server = s
 				p.mu.Unlock()
 				p.tune(s)
+				if pos == 4 {
+					// the write sequence is decided by the writer: read for a bounded virtual time and compare the prefix
+					exp := func() []byte {
+						p.mu.Lock()
+						defer p.mu.Unlock()
+						return vfExpected(0, p.altSizes)
+					}
+					buf := make([]byte, 4096)
+					for {
+						s.SetReadDeadline(vrt.Now().Add(1500 * time.Millisecond))
+						n, err := s.Read(buf)
+						if err != nil {
+							break
+						}
+						sg = append(sg, buf[:n]...)
+					}
+					if e := exp(); len(e) > 0 && !bytes.Equal(sg, e) {
+						p.bad("C01:stream-not-a-prefix", "after the MTU change the reader got %d bytes, %d were written", len(sg), len(e))
+					}
+					return
+				}
 				p.reader(s, 0, vfSum(cf.Writes), cf.Writes, &sg)
 			})
 			wg.Wait()
@@ -312,7 +369,8 @@ func vfC10(c *hx.Ctx) {
 		}
 		c.UnitBudget = left / time.Duration(max(per, 1))
 		pr := vfPairParams(cf, 0)
-		pr["mtu_alphabet"], pr["positions"] = alpha, []string{"before traffic", "after two writes (queued / in flight)", "7ms into the transfer (concurrently)", "after all writes"}
+		pr["mtu_alphabet"], pr["positions"] = alpha, []string{"before traffic", "after two writes (queued / in flight)", "7ms into the transfer (concurrently)", "after all writes",
+			"after a large write, 0-2 small writes, a 700ms idle gap, one more write, everything acknowledged; followed by a burst of small writes"}
 		c.Explore(fmt.Sprintf("setmtu-session/cipher=%s/fec=%d,%d", cl.ciph, cl.ds, cl.ps), pr, 0, vfPairRun(cf, 0, body))
 	}
 	// raw core: SetMtu for any int, at every position of a core-pair history
@@ -367,6 +425,8 @@ func vfC10(c *hx.Ctx) {
 		c.UnitBudget = 10 * time.Second
 		c.Explore("setmtu-core", map[string]any{"positions": []string{"before traffic", "after 2 calls", "after 9 calls"}}, 0, run)
 	}
+	// the core never hands its output callback more than its MTU nor an empty packet, whatever a peer sends
+	vfAdversarialBFS(c, "C10:", 4, false)
 }
 
 func init() {
